@@ -119,6 +119,10 @@ func (p *exeParser) readSelectionSet() (sels []Selection, err error) {
 		return
 	}
 	_, _ = p.readByte() // re-read {
+	if err = p.deeper(); err != nil {
+		return nil, err
+	}
+	defer p.shallower()
 FOR:
 	for {
 		if err != nil {
